@@ -103,6 +103,10 @@ SEQ_BLOCKS = ["h2", "p", "p-italic", "p-link-caption", "p-ref", "p-ref-named", "
 # line-level constructs that the block library only has in richer forms
 RAW_REPEATED = {"raw-indent": ": same words", "raw-indent2": ":: same deeper words", "raw-bullet": "* same item", "raw-numbered": "# same item",
                 "raw-pre": " same preformatted line", "raw-bold-line": "'''same bold''' words", "raw-link-line": "[[Same|same link]] words",
+                # entries that repeat an earlier entry of the SAME list / table
+                "raw-dl-internal": "; Cat\n: animal\n; Dog\n: animal\n; Rose\n: plant", "raw-verse": ": first line\n: la la la\n: second line\n: la la la\n: third line\n: fourth line",
+                "raw-ul-internal": "* same\n* other\n* same\n* last", "raw-ol-nested-internal": "# a\n## same\n# b\n## same\n# c",
+                "raw-table-internal": "{|\n| same || other\n|-\n| same || last\n|-\n| x || y\n|}",
                 "raw-div": "<div>same div words</div>", "raw-blockquote": "<blockquote>same quoted words</blockquote>", "raw-center": "<center>same centered</center>"}
 
 
